@@ -431,6 +431,29 @@ Theorem C14_identity_list_to_vector : forall fuel s v xs,
 Proof. exact list_to_vector_then_ref. Qed.
 Print Assumptions C14_identity_list_to_vector.
 
+(* append: a NEWLY ALLOCATED list ([aprefix] through the fresh locations [locs]) holding the
+   elements of all arguments but the last, whose tail is the last argument ITSELF (shared
+   structure, as R7RS specifies); no object that existed before changes ([pres]) *)
+Theorem C14_append_refines : forall fuel s lists last xss,
+  values_are_refs s -> Forall (val_ok s) lists -> val_ok s last ->
+  called_with s (lists ++ [last]) ->
+  Forall2 (fun l xs => achain (abs s) (absv s l) xs (AImm VNil) /\ (length xs + 2 < fuel)%nat) lists xss ->
+  exists r s' locs, call_builtin (append fuel) s = ROk r s' /\
+    aprefix (abs s') (absv s' r) locs (concat xss) (absv s last) /\ fresh_in s locs /\
+    pres s s' /\ values_are_refs s' /\ val_ok s' r.
+Proof. exact append_refines. Qed.
+Print Assumptions C14_append_refines.
+
+(* list?: #t exactly for finite chains ending in (), #f for every other finite chain; the
+   second cursor of the cycle detection (fix F11) never fires on a finite list *)
+Theorem C14_is_list_refines : forall fuel s v xs e,
+  values_are_refs s -> val_ok s v -> called_with s [v] ->
+  achain (abs s) (absv s v) xs e -> (length xs + 3 < fuel)%nat ->
+  exists s', is_list fuel s = ROk (VBool (match e with AImm VNil => true | _ => false end)) s' /\
+             hp s' = hp s /\ st s' = st s.
+Proof. exact is_list_refines. Qed.
+Print Assumptions C14_is_list_refines.
+
 (* ---------------------------------------------------------------------- equal? *)
 (* equal_spec.  On finite plain data ([adatum s x n]: booleans, characters, (), numbers,
    symbols, strings, pairs, vectors; n bounds the depth, so the data is acyclic), with
@@ -479,18 +502,8 @@ Print Assumptions C14_predicates.
    what is claimed above cannot be mistaken for the whole of C14; each is exercised by
    the correspondence check and the reference-store oracle only. *)
 
-(* OPEN: append — a newly allocated list holding the elements of all arguments but the
-   last, sharing its tail with the last argument; an improper list among the copied
-   arguments is an error; no existing object changes *)
-Definition append_refines_stmt : Prop :=
-  forall fuel s (lists : list vcell) (last : vcell) (xss : list (list aval)),
-  values_are_refs s -> Forall (val_ok s) lists -> val_ok s last ->
-  called_with s (lists ++ [last]) ->
-  Forall2 (fun l xs => achain (abs s) (absv s l) xs (AImm VNil) /\ (length xs + 1 < fuel)%nat) lists xss ->
-  exists r s' locs, call_builtin (append fuel) s = ROk r s' /\
-    aprefix (abs s') (absv s' r) locs (concat xss) (absv s last) /\ fresh_in s locs /\
-    pres s s' /\ values_are_refs s' /\ val_ok s' r.
-
+(* OPEN: append with an improper list among the copied arguments reports an error
+   (the proper-list case is C14_append_refines above) *)
 Definition append_improper_stmt : Prop :=
   forall fuel s (lists : list vcell) (last : vcell),
   values_are_refs s -> Forall (val_ok s) lists -> val_ok s last ->
@@ -500,15 +513,8 @@ Definition append_improper_stmt : Prop :=
   Forall (fun l => exists xs e, achain (abs s) (absv s l) xs e /\ (length xs + 1 < fuel)%nat) lists ->
   render_fail (call_builtin (append fuel) s).
 
-(* OPEN: list? — #t exactly for finite chains ending in (), #f for other finite chains,
-   and (fix F11) #f for circular lists, with a fuel proportional to the number of pairs *)
-Definition is_list_spec_stmt : Prop :=
-  forall fuel s v xs e,
-  values_are_refs s -> val_ok s v -> called_with s [v] ->
-  achain (abs s) (absv s v) xs e -> (length xs + 1 < fuel)%nat ->
-  exists s', is_list fuel s = ROk (VBool (match e with AImm VNil => true | _ => false end)) s' /\
-             hp s' = hp s /\ st s' = st s.
-
+(* OPEN: list? on a circular list answers #f (fix F11; the finite case is
+   C14_is_list_refines above; exercised by interface 41 of the correspondence check) *)
 Definition is_list_circular_stmt : Prop :=
   forall s v (cells : nat -> N * N),
   values_are_refs s -> val_ok s v -> called_with s [v] ->
